@@ -4,3 +4,4 @@ import CheetahModel.Properties.C11
 #print axioms C11.track_pure
 #print axioms C11.reading_is_last_beam
 #print axioms C11.cache_coherent
+#print axioms C11.merged_probe_beam_is_the_tracked_beam
